@@ -173,6 +173,45 @@ class HypothesisDraw(_DrawBase):
             self._st.integers(0, hi), min_size=n, max_size=n))
 
 
+class BytesDraw(_DrawBase):
+    """Decodes a byte string (libFuzzer / atheris input) into the same
+    primitives.  Every draw consumes a fixed number of bytes for its range, so
+    that byte-level mutations map to local changes of single choices; an
+    exhausted input yields the minimum.  The decoded values are recorded like
+    everywhere else, i.e. a failing input is stored and replayed as a choice
+    list, independent of this encoding."""
+
+    def __init__(self, data):
+        super().__init__()
+        self._data = bytes(data)
+        self._pos = 0
+
+    def _take(self, n):
+        chunk = self._data[self._pos:self._pos + n]
+        self._pos += n
+        return int.from_bytes(chunk.ljust(n, b'\0'), 'little')
+
+    def _int(self, lo, hi):
+        span = hi - lo
+        if span <= 0:
+            return lo
+        nbytes = max(1, (span.bit_length() + 7) // 8)
+        return lo + self._take(nbytes) % (span + 1)
+
+    def _float(self, lo, hi):
+        if hi <= lo:
+            return lo
+        v = self._take(4)
+        # the end points and the middle get a share of their own
+        if v % 16 == 0:
+            return [lo, hi, (lo + hi) / 2][(v // 16) % 3]
+        return lo + (hi - lo) * (v / 2.0 ** 32)
+
+    def _ints(self, n, hi):
+        nbytes = max(1, (int(hi).bit_length() + 7) // 8)
+        return [self._take(nbytes) % (hi + 1) for _ in range(n)]
+
+
 class ReplayDraw(_DrawBase):
     """Replays a recorded choice list.  Values are clamped into the range the
     generator asks for (ranges may depend on earlier, shrunk choices); once the
@@ -366,7 +405,8 @@ def digest_choices(choices):
 
 class SubCheck:
     def __init__(self, fn, name, quick, thorough, shards_quick=None,
-                 shards_thorough=None, exhaustive=None, min_nontrivial=0.10):
+                 shards_thorough=None, exhaustive=None, min_nontrivial=0.10,
+                 fuzz=0):
         self.fn = fn
         self.name = name
         self.quick = quick
@@ -377,6 +417,9 @@ class SubCheck:
         # enumeration of a finite sub-domain), or None
         self.exhaustive = exhaustive
         self.min_nontrivial = min_nontrivial
+        # fuzz: libFuzzer executions per shard of the coverage-guided part
+        # (atheris, thorough tier only; 0 = none)
+        self.fuzz = fuzz
 
 
 def subcheck(registry, name=None, quick=200, thorough=4000, **kw):
